@@ -961,6 +961,8 @@ class Interp:
             # object back (true as a condition), the others compute nothing of what was meant
             if name in ('numpy.any', 'numpy.all') and len(args) == 1 and not kwargs:
                 return True
+            if name in ('numpy.argmax', 'numpy.argmin') and len(args) == 1 and not kwargs:
+                return C(0)             # the one entry of the 0-d object array that holds the iterator
             raise Unsupported('%s of an iterator object (generator, map, zip ...)' % name, n)
         if any(is_iter(a) for a in args) and not name.startswith(('itertools.', 'functools.', 'more_itertools.')):
             args = drain(args)
@@ -2334,9 +2336,21 @@ class Frame:
                     raise _RaisedExc(Raised('KeyError', t))
                 del base.d[k]
                 return
+            if isinstance(base, ListV) and (getattr(base, 'is_tuple', False) or getattr(base, 'is_set', False) or
+                                            is_iter(base)):
+                raise _RaisedExc(Raised('TypeError', t))        # tuples, sets and iterators do not support deletion
             if isinstance(base, ListV) and not isinstance(t.slice, ast.Slice):
                 i = self.index(self.ev(t.slice), len(base.items), t)
                 del base.items[i]
+                return
+            if isinstance(base, ListV) and isinstance(t.slice, ast.Slice) and not getattr(base, 'is_array', False) and \
+                    not isinstance(base.items, ViewItems):
+                # del l[a:b:c] of a Python list: in place, every other name of the list sees it
+                def bound(e_):
+                    if e_ is None:
+                        return None
+                    return _as_int(self.ev(e_), t)
+                del base.items[slice(bound(t.slice.lower), bound(t.slice.upper), bound(t.slice.step))]
                 return
         raise Unsupported('del %s' % ast.unparse(t), t, self.module.relpath)
 
@@ -5883,6 +5897,40 @@ def _inspect_signature(I, fr, args, kwargs, n):
     return Obj('signature', attrs={'parameters': ps}, closed=True)
 
 
+def _string_io(I, fr, args, kwargs, n):
+    """io.StringIO([initial]): an in-memory text buffer - write() appends (and returns the number of characters when
+    that is known), getvalue() is everything written; reading, seeking and truncating are outside the fragment"""
+    if kwargs or len(args) > 1:
+        raise Unsupported('io.StringIO with these arguments', n)
+    o = Obj('StringIO', closed=True)
+    o.refuse_unknown = True
+    buf = [I.seg(args[0]) if args and args[0] is not None else SegStr()]
+    if args and args[0] is not None and len(buf[0].segs):
+        raise Unsupported('io.StringIO with an initial text (the write position starts at 0)', n)
+
+    def write(I_, ob, a, k):
+        if len(a) != 1 or k or not isinstance(a[0], (str, SegStr)):
+            raise _RaisedExc(Raised('TypeError', n))
+        if ob.attrs.get('__closed__'):
+            raise _RaisedExc(Raised('ValueError', n))
+        t_ = I_.seg(a[0])
+        buf[0] = buf[0] + t_
+        try:
+            return C(len(t_))
+        except Unsupported:
+            return None
+
+    def getvalue(I_, ob, a, k):
+        if ob.attrs.get('__closed__'):
+            raise _RaisedExc(Raised('ValueError', n))
+        return I_.plain(buf[0])
+    o.opaque_methods['write'] = write
+    o.opaque_methods['getvalue'] = getvalue
+    o.opaque_methods['close'] = lambda I_, ob, a, k: ob.attrs.__setitem__('__closed__', True)
+    o.attrs['__mode__'] = 'w'           # a with-block closes it
+    return o
+
+
 def _pathlib_path(I, fr, args, kwargs, n):
     """pathlib.Path(name): modelled as far as naming a file goes - open(), str(), os.fspath, .name of a plain name"""
     if len(args) != 1 or kwargs:
@@ -7278,7 +7326,7 @@ NATIVE = {
     'numpy.mean': _np_mean,
     'numpy.isclose': _np_isclose,
     'collections.namedtuple': _namedtuple,
-    'pathlib.Path': _pathlib_path, 'os.fspath': lambda I, fr, args, kwargs, n: (
+    'io.StringIO': _string_io, 'pathlib.Path': _pathlib_path, 'os.fspath': lambda I, fr, args, kwargs, n: (
         args[0].attrs['__fspath__'] if isinstance(args[0], Obj) and '__fspath__' in args[0].attrs else args[0]),
     'inspect.getfullargspec': _getfullargspec, 'dataclasses.replace': _dataclass_replace, 'numpy.repeat': _np_repeat, 'numpy.interp': _np_interp,
     'itertools.repeat': _itertools_repeat,
